@@ -168,6 +168,10 @@ def run_case(case, ctx):
         if r.timed_out:
             return Outcome(ok=True, inconclusive=True)
         if case["damage"].get("second_round"):
+            try:
+                w.c1 = w.content_model()
+            except cfparse.ContentError:
+                w.c1 = None
             n2 = 0
             for ev in list(w.events):
                 if ev and ev[0] == "copy" and os.path.isfile(w.full(ev[3], ev[4])):
@@ -355,7 +359,16 @@ def classify(w, c, dn, f, V, pre_bytes, post_bytes, pre_entry, reruns=0):
         return None
     bs = c.block_size
     c0 = getattr(w, "c0", None)
-    prev = cfparse.position_table(c0).get if c0 else (lambda p: None)
+    # states in which a position may last have held a synced block: after the base sync and after the first unfinished round
+    tabs = [cfparse.position_table(x) for x in [getattr(w, "c1", None), c0] if x is not None]
+
+    def prev(p):
+        out = {}
+        for t in reversed(tabs):          # later states override earlier ones
+            for nm, row in (t.get(p) or {}).items():
+                if row[0] == cfparse.BLK and row[2] is not None:
+                    out[nm] = row
+        return out or None
     sigs = set()
     for i, (pos, st_, h) in enumerate(f.blocks):
         want = V[i * bs:(i + 1) * bs]
